@@ -5,7 +5,7 @@ from vlib import common, prog
 LEVEL = 'exploration'
 
 
-def render_stmts(ss, cid, ind='  '):
+def render_stmts(ss, cid, ind='  ', quoted=False, sleep=1):
     out = []
     for s in ss:
         if s['t'] == 'out':
@@ -17,30 +17,88 @@ def render_stmts(ss, cid, ind='  '):
                 name = s['name'] if s['name'] != 'fn' else 'fn%d' % cid
                 out.append(ind + '%s %s' % (s['k'], name))
         elif s['t'] == 'if':
-            out.append(ind + 'if { $%s == %d } then {' % (s['var'], s['val']))
-            out.append(render_stmts(s['body'], cid, ind + '  '))
+            # items that arrive through a pipe are strings
+            out.append(ind + ('if { $%s == "%d" } then {' if quoted else 'if { $%s == %d } then {') % (s['var'], s['val']))
+            out.append(render_stmts(s['body'], cid, ind + '  ', quoted, sleep))
             out.append(ind + '}')
-        elif s['t'] == 'foreach':
-            out.append(ind + '%%[%s] -> foreach %s {' % (','.join(str(x) for x in s['items']), s['var']))
-            out.append(render_stmts(s['body'], cid, ind + '  '))
+        elif s['t'] == 'loop':
+            n = len(s['items'])
+            assert s['items'] == list(range(1, n + 1))
+            if s['kind'] == 'foreach':
+                out.append(ind + '%%[%s] -> foreach %s {' % (','.join(str(x) for x in s['items']), s['var']))
+            elif s['kind'] == 'while':
+                out.append(ind + '%s = 0' % s['var'])
+                out.append(ind + 'while { $%s < %d } {' % (s['var'], n))
+                out.append(ind + '  %s = $%s + 1' % (s['var'], s['var']))
+            elif s['kind'] == 'for':
+                out.append(ind + 'for { %s = 1; $%s <= %d; %s = $%s + 1 } {' % (s['var'], s['var'], n, s['var'], s['var']))
+            out.append(render_stmts(s['body'], cid, ind + '  ', quoted, sleep))
+            out.append(ind + '}')
+        elif s['t'] == 'staged':
+            # the producer: a stage of the same pipeline that prints one item per `sleep` seconds and reports on stderr
+            out.append(ind + '%%[%s] -> foreach p {' % ','.join(str(x) for x in s['items']))
+            out.append(ind + '  out <err> "tick $p"')
+            out.append(ind + '  out $p')
+            out.append(ind + '  sleep %d' % sleep)
+            out.append(ind + '} -> foreach %s {' % s['var'])
+            out.append(render_stmts(s['body'], cid, ind + '  ', True, sleep))
             out.append(ind + '}')
     return '\n'.join(out)
 
 
+def tick_groups(err):
+    """stderr -> list of tick sequences, one per run of the producer (each starts at tick 1)"""
+    groups = []
+    for line in err.decode('utf-8', 'replace').split('\n'):
+        if line.startswith('tick '):
+            if line == 'tick 1' or not groups:
+                groups.append([])
+            groups[-1].append(line[5:])
+    return groups
+
+
+def judge(c, tail, runs):
+    want = [''.join(t) for t in c['out']] + (['after'] if tail == 'after' else [])
+    wexit = c['exit'] if tail == 'none' else 0
+    for r in runs:
+        if r.get('panic'):
+            return 'internal panic: ' + r['panic']
+        got = r['out'].decode('utf-8', 'replace').split('\n')[:-1]
+        if got != want or r['exit'] != wexit:
+            return 'printed %s exit %d; structured meaning: %s exit %d' % (got, r['exit'], want, wexit)
+        if c['family'] == 'stage':
+            groups = tick_groups(r['err'])
+            if len(groups) != len(c['tk']):
+                return 'the producer stage ran %d times (%s), structured meaning: %d times' % (len(groups), groups, len(c['tk']))
+            for g, rng in zip(groups, c['tk']):
+                if g != [str(k) for k in range(1, len(g) + 1)] or not rng['lo'] <= len(g) <= rng['hi']:
+                    return ('the producer stage of the pipeline started items %s; structured meaning: between %d and %d items '
+                            '(the block it runs in was ended by the consumer stage)' % (g, rng['lo'], rng['hi']))
+    return None
+
+
 def run(ck, replay=None):
-    ck.cov['rule'] = ('TLC evaluates the structured meaning (completion records normal/break name/continue name/return n) of every program of the '
-                      'family in Control.tla: a function whose body has an outer foreach over 3 items, optionally an inner foreach over 2 items, and '
-                      'in each loop body optionally `if {var == k} then { out; CTRL; out }` with CTRL in {break foreach, continue foreach, return 3, '
-                      'break if, break <function>}; each program is rendered and run by the real interpreter twice (function call last: exit number '
-                      'observed; followed by another command: caller carries on); the printed tags and the exit number are compared.  '
+    ck.cov['rule'] = ('TLC evaluates the structured meaning (completion records normal/break name/continue name/return n) of every program of two '
+                      'families in Control.tla.  nest: a function whose body has an outer loop (foreach, while or for) over 3 items, optionally an '
+                      'inner loop (any of the three kinds) over 2 items, and in each loop body optionally `if {var == k} then { out; CTRL; out }` with '
+                      'CTRL in {break <loop name>, continue <loop name>, return 3, break if, break <function>} where the loop name is that of any '
+                      'enclosing loop (so with loops of different kinds the outer one can be named from the inner one).  stage: the consumer '
+                      'foreach of a pipeline `producer -> foreach` (optionally inside a while loop) ends its own loop / the while loop / the '
+                      'function while the producer stage (one item per second, reported on stderr) is still running; the meaning gives the range '
+                      'of items the producer may have started: all of them unless a block around the pipeline was ended, then at least the item '
+                      'the consumer was at and not the last one.  Each program is rendered and run by the real interpreter (function call last: '
+                      'exit number observed; followed by another command: caller carries on); printed tags, exit number and producer items are '
+                      'compared.  A stage program that disagrees is run again alone with 3 s per item before it counts.  '
                       'non-trivial = at least one control statement; distinct = different programs.')
-    ck.assumptions += ['blocks are named as murex names them: foreach, if, and the function name', 'loops are foreach over a JSON array literal']
+    ck.assumptions += ['blocks are named as murex names them: foreach, while, for, if, and the function name',
+                       'loops are foreach over a JSON array literal, while with a counter incremented at the top of the body, for { i = 1; $i <= n; i = $i + 1 }',
+                       'stage family: the consumer receives an item and reaches its control statement within (6 - item - 1) seconds of the producer printing it']
     wd = os.path.join(ck.scratch, 'gen')
-    r = common.tlc('Control', 'MCControl.cfg', wd, workers=1, timeout=600)
+    r = common.tlc('Control', 'MCControl.cfg', wd, workers=1, timeout=900)
     if r.violated:
         raise common.Infra('Control.tla: %s\n%s' % (r.violated, r.out[-2000:]))
     cases = common.read_ndjson(os.path.join(wd, 'cases.ndjson'))
-    jobs = []
+    jobs = {'nest': [], 'stage': []}
     meta = {}
     cid = 0
     for c in cases:
@@ -49,38 +107,48 @@ def run(ck, replay=None):
             src = 'function fn%d {\n%s\n}\nfn%d' % (cid, render_stmts(c['body'], cid), cid)
             if tail == 'after':
                 src += '\nout after'
-            jobs.append({'id': cid, 'src': src, 'timeout_ms': 20000, 'repeat': 2})
+            jobs[c['family']].append({'id': cid, 'src': src, 'timeout_ms': 60000, 'repeat': 2 if c['family'] == 'nest' else 1})
             meta[cid] = (c, tail, src)
-    res = prog.run_programs(ck, jobs, shards=8, tag='c39')
+    res = prog.run_programs(ck, jobs['nest'], shards=8, tag='c39')
+    res.update(prog.run_programs(ck, jobs['stage'], shards=min(len(jobs['stage']), 2 * common.NCPU), tag='c39s'))
     nontriv = set()
+    fam = {'nest': 0, 'stage': 0}
     for cid, (c, tail, src) in meta.items():
         x = res.get(cid)
         ck.cov['evaluations'] += 1
         p = c['params']
-        key = 'c1=%s@%d inner=%s c2=%s@%d tail=%s' % (p['c1'], p['w1'], p['inner'], p['c2'], p['w2'], tail)
+        if c['family'] == 'nest':
+            key = 'k1=%s c1=%s@%d inner=%s c2=%s@%d tail=%s' % (p['k1'], p['c1'], p['w1'], p['inner'], p['c2'], p['w2'], tail)
+            triv = p['c1'] == 'none' and p['c2'] == 'none'
+        else:
+            key = 'stage wrap=%s c=%s@%d tail=%s' % (p['wrap'], p['c'], p['w'], tail)
+            triv = p['c'] == 'none'
         if x is None or x['status'] != 'done':
             ck.violation('crash-or-hang:' + key, 'program crashed or hung: %s' % (x and x['status']), {'src': src})
             continue
-        want = [''.join(t) for t in c['out']] + (['after'] if tail == 'after' else [])
-        wexit = c['exit'] if tail == 'none' else 0
-        bad = None
-        for r in x['runs']:
-            if r.get('panic'):
-                bad = 'internal panic: ' + r['panic']
-                break
-            got = r['out'].decode('utf-8', 'replace').split('\n')[:-1]
-            if got != want or r['exit'] != wexit:
-                bad = 'printed %s exit %d; structured meaning: %s exit %d' % (got, r['exit'], want, wexit)
-                break
+        bad = judge(c, tail, x['runs'])
+        if bad and c['family'] == 'stage':
+            # timing is involved: once more, alone, with three seconds per item
+            src3 = 'function fn%d {\n%s\n}\nfn%d' % (cid, render_stmts(c['body'], cid, sleep=3), cid) + ('\nout after' if tail == 'after' else '')
+            y = prog.run_programs(ck, [{'id': cid, 'src': src3, 'timeout_ms': 120000, 'repeat': 1}], shards=1, tag='c39c').get(cid)
+            if y is None or y['status'] != 'done':
+                ck.violation('crash-or-hang:' + key, 'program crashed or hung: %s' % (y and y['status']), {'src': src3})
+                continue
+            bad = judge(c, tail, y['runs'])
+            x, src = y, src3
         if bad:
             ck.violation(key, bad, {'src': src, 'stderr': x['runs'][0]['err'].decode('utf-8', 'replace')[:500]})
         else:
             ck.cov['traces_validated_against_impl'] += 1
-            if p['c1'] != 'none' or p['c2'] != 'none':
+            fam[c['family']] += 1
+            if not triv:
                 nontriv.add(key)
-                if len(ck.cov['samples']) < 3 and p['inner'] and p['c2'] != 'none':
-                    ck.sample({'src': src, 'stdout': want, 'exit': wexit})
+                if len(ck.cov['samples']) < 4 and (c['family'] == 'stage' and p['c'] in ('return', 'break-while')
+                                                   or c['family'] == 'nest' and p['inner'] not in ('none', p['k1']) and p['c2'] == 'break-' + p['k1']) \
+                        and sum(1 for s_ in ck.cov['samples'] if s_.get('family') == c['family']) < 2:
+                    ck.sample({'family': c['family'], 'src': src, 'stdout': [''.join(t) for t in c['out']], 'exit': c['exit'], 'producer_items': c['tk']})
+    ck.cov['programs_agreeing_by_family'] = fam
     ck.cov['distinct_nontrivial'] = len(nontriv)
     ck.cov['exhaustive'] = True
-    if not ck.violations and len(nontriv) < 100:
+    if not ck.violations and len(nontriv) < 1000:
         raise common.Infra('vacuous: %d' % len(nontriv))
